@@ -127,7 +127,8 @@ func (g *gen) mdChoices(gr []Triple) string {
 			}
 		}
 	}
-	return fmt.Sprintf("M%d.%d.%d/%s/%s/%s/%s/%s/%s", g.r.Intn(2), useType, g.r.Intn(8), natList(g.ints(n, 66)), natList(g.ints(n, 8)),
+	// 4th header field: wrapId knob of MdPat.build (ids on html / body / wrappers of items and of detached elements)
+	return fmt.Sprintf("M%d.%d.%d.%d/%s/%s/%s/%s/%s/%s", g.r.Intn(2), useType, g.r.Intn(8), g.r.Intn(16)*g.r.Intn(2), natList(g.ints(n, 66)), natList(g.ints(n, 8)),
 		natList(g.ints(n, 6)), optHexList(names), optHexList(objs), optHexList(ids))
 }
 
@@ -169,6 +170,8 @@ func (s *soup) resVal(curie bool) string {
 	}
 	if curie {
 		opts = append(opts, "schema:Person", "foaf:me", "[foaf:me]", "[_:b1]", "ex:thing", "[ex:thing]", "dc:title")
+		// `p` and `o` are declared by some elements only (rdfaElem): a CURIE in their scope, an absolute IRI elsewhere
+		opts = append(opts, "o:thing", "p:deep/er/x")
 	}
 	return vh.Pick(s.r, opts)
 }
@@ -183,7 +186,7 @@ func (s *soup) hrefVal() string {
 
 func (s *soup) predVal(vocab bool) string {
 	one := func() string {
-		opts := []string{vh.Pick(s.r, predIRIs), vh.Pick(s.r, predIRIs), "schema:name", "foaf:knows", "dc:title", "ex:p1", "rdfs:label"}
+		opts := []string{vh.Pick(s.r, predIRIs), vh.Pick(s.r, predIRIs), "schema:name", "foaf:knows", "dc:title", "ex:p1", "rdfs:label", "p:rel", "o:x"}
 		if vocab {
 			opts = append(opts, "name", "knows", "p1")
 		}
@@ -207,7 +210,10 @@ func (s *soup) rdfaElem(depth int, vocab bool) *Node {
 	var attrs []Attr
 	add := func(n, v string) { attrs = append(attrs, Attr{n, v}) }
 	if s.r.Chance(12) {
-		v := vh.Pick(s.r, append([]string{""}, vocabs...))
+		v := ""
+		if !s.r.Chance(15) {
+			v = pickVocab(s.r) // the host default vocabulary, written by the author, with extra weight
+		}
 		add("vocab", v)
 		vocab = v != ""
 	}
